@@ -17,10 +17,25 @@ var shareLists = [][]string{
 	// round trips: the final value equals the input for some values while an intermediate value differs (what a
 	// multiMatch rule must still see, whatever an earlier rule with the same list left in the cache)
 	{"uppercase", "lowercase"}, {"lowercase", "uppercase"}, {"hexEncode", "hexDecode"}, {"trim", "uppercase", "lowercase"},
+	// lists that differ only in which member of one family stands at a position (an entry filed under the
+	// identity of a step must not be handed to its siblings)
+	{"trimLeft"}, {"trimRight"}, {"lowercase", "trimLeft"}, {"lowercase", "trimRight"}, {"trimLeft", "length"}, {"trimRight", "length"},
 }
 
 var shareNames = []string{"a", "A", "b", "c", "ab", "a", "b", ""}
 var shareValues = []string{"X1", "x1", " X1", "X2", "x2 ", "Ab", "aB", "AB ", "", "a\x00B", "Zz", "zZ", "4162", "5a7A "}
+
+// shareLongValues: values of one length that agree in their first and last 70 bytes and differ only in the
+// middle (by case and white space): whatever identifies a value in a cache must not sample it.
+var shareLongValues = func() []string {
+	head := "head-0123456789abcdefghijklmnopqrstuvwxyzABCDEFGHIJKLMNOPQRSTUVWXYZ-head/"
+	tail := "/tail-0123456789abcdefghijklmnopqrstuvwxyzABCDEFGHIJKLMNOPQRSTUVWXYZ-tail"
+	var out []string
+	for _, mid := range []string{"X1  ", "x1  ", " X1 ", "  x1", "Ab  ", "aB  ", "4162", "5a7A"} {
+		out = append(out, head+mid+tail, " "+head[1:]+mid+tail[:len(tail)-1]+" ")
+	}
+	return out
+}()
 
 // ShareRequest: few names, many repeats, values differing only by case/space so that wrong sharing shows.
 func ShareRequest(r R) *sl.Req {
@@ -29,13 +44,17 @@ func ShareRequest(r R) *sl.Req {
 		// arguments the library extracts itself: their keys and values are substrings of the URI
 		req.RawQuery = Pick(r, []string{"a=X1", "a=X1&b=x1", "A=Ab&a=aB&c=X2", "b=Zz&b=zZ", "q=X1&a=X1"})
 	}
+	vals := shareValues
+	if Chance(r, 0.2) {
+		vals = shareLongValues
+	}
 	n := 2 + r.IntN(7)
 	for i := 0; i < n; i++ {
-		req.Get = append(req.Get, sl.KV{K: Pick(r, shareNames), V: Pick(r, shareValues)})
+		req.Get = append(req.Get, sl.KV{K: Pick(r, shareNames), V: Pick(r, vals)})
 	}
 	n = r.IntN(4)
 	for i := 0; i < n; i++ {
-		req.Post = append(req.Post, sl.KV{K: Pick(r, shareNames), V: Pick(r, shareValues)})
+		req.Post = append(req.Post, sl.KV{K: Pick(r, shareNames), V: Pick(r, vals)})
 	}
 	n = r.IntN(3)
 	for i := 0; i < n; i++ {
